@@ -43,7 +43,7 @@ RULE = ("random concurrent group histories built by a python simulator of replic
         "in the DAG, chain closing G1>G2>G3 then G1 into G3, sub-group removals followed by / concurrent with reverse adds, stale branches, "
         "self-adds, a few individual operations); each processed in the generation order plus random topological orders, nest also in "
         "targeted orders that deliver a group add directly before a concurrent nesting operation (e.g. between the add and the removal of "
-        "the opposite edge) (quick: 300 histories of which 90 nest, 4-5 orders x 2-3 queries, 3-14 ops; thorough: 1050 histories, 8 orders, "
+        "the opposite edge) (quick: 330 histories of which 90 nest, 4-5 orders x 2-3 queries, 3-14 ops; thorough: 1050 histories, 8 orders, "
         "up to 22 ops). The observation per replica is the accepted set, the outcome kind of every operation and members/root_members of every group. "
         "non-trivial = the history has at least two concurrent operations, at least two distinct orders were run and a non-create "
         "operation was accepted")
@@ -469,7 +469,7 @@ NEST_CHEAP, NEST_DEEP_MAX = 200, 5500
 
 def gen(tier, rng):
     if tier == "quick":
-        plan = [("nest", 90, 5), ("plain", 120, 4), ("sep", 40, 4), ("mixed", 50, 4)]
+        plan = [("nest", 90, 5), ("plain", 150, 4), ("sep", 40, 4), ("mixed", 50, 4)]
         steps, maxops, ndeep = (8, 18), 14, 8
     else:
         plan = [("nest", 300, 8), ("plain", 500, 8), ("sep", 100, 8), ("mixed", 150, 8)]
